@@ -6,7 +6,7 @@ Import ListNotations.
 From BT Require Import Model.Skel Model.SkelTie Proof.SkelCert Proof.SkelProofs.
 
 Theorem C05_tie : G = guards_of_gen /\ g_shutdown_restores G = true /\ g_startup_fail_restores G = true /\ nothing_unsupported = true /\
-  shapes_ok_for ["shutdown"; "Kill"; "recoverFromPanic"; "handlePanic"]%string = true.
+  shapes_ok_for ["shutdown"; "Kill"; "recoverFromPanic"; "handlePanic"; "restoreTerminalState"; "restoreInput"; "initTerminal"; "initInput"; "eventLoop:sequenceMsg"]%string = true.
 Proof. vm_compute. repeat split. Qed.
 Print Assumptions C05_tie.
 
